@@ -397,7 +397,7 @@ def check_radar(col, binpath, rng, tag, seg_kind, delay_kind, malformed, disconn
     if limit:
         opts.append("--limit-parsing")
     plan = steps + [("mark", "feed_done")]
-    lines2, expect2 = [], {}
+    lines2, expect2, last_words = [], {}, []
     retrying = disconnect in ("retry", "retry_midline", "retry_backlog", "retry_reset")
     if retrying:
         opts.append("--retry-tcp")
@@ -418,8 +418,15 @@ def check_radar(col, binpath, rng, tag, seg_kind, delay_kind, malformed, disconn
             # the server stays up but does not accept for longer than the client's 10 s connect timeout
             plan += [("wait_for", "first_checked"), ("close",), ("saturate", 13.0, 40.0)]
         else:
-            plan += [("wait_for", "first_checked"), ("close",), ("sleep", rng.choice([0.1, 0.5, 2.0])), ("accept", 25.0)]
-        plan += [("send", d) for _, d, *_ in lines2] + [("mark", "feed2_done"), ("sleep", 60)]
+            # last words: complete lines sent in one piece with the orderly close right behind them
+            # (FIN follows the data: they are delivered, so they are processed - exactly once,
+            # not lost with the old reader and not replayed by the new one)
+            for k in range(rng.randint(1, 40)):
+                a = rng.choice(addrs)
+                last_words.append(("good", enc.line(enc.long_frame(17, rng.randrange(8), a, enc.me_unique(25, 800000 + k))), a, None))
+            plan += [("wait_for", "first_checked"), ("send", b"".join(d for _, d, *_ in last_words)), ("close",), ("sleep", rng.choice([0.1, 0.5, 2.0])), ("accept", 25.0)]
+            lines2 = last_words + lines2
+        plan += [("send", d) for _, d, *_ in lines2[len(last_words):]] + [("mark", "feed2_done"), ("sleep", 60)]
     elif disconnect == "midline":
         plan += [("wait_for", "first_checked"), ("send", b"*8D4840D6202C"), ("sleep", 0.2), ("close",), ("sleep", 20)]
     elif disconnect == "reset":
